@@ -69,7 +69,7 @@ reg("C04", harness="c04_crc", level="exploration", deadline=(240, 1500),
     technique="bounded-exhaustive enumeration (variant x length x alignment/placement x basis data x seeds x all split points) against bit-serial references",
     level_text="Every checksum variant (48 direct kernel symbols + 14 dispatched entries under 7 simulated CPU levels) is run over every length "
                "0..600 (thorough 0..2200), 65 guard-page placements/alignments, four designed data sets x four seeds, every unit impulse (each bit "
-               "of each byte, len<=160/300), every single-bit seed, every split point (len<=200/400) and the large all-FF lengths, each compared "
+               "of each byte, len<=160/300), every single-bit seed, every split point (len<=200/400), every further length up to 6400 (thorough 20000: two periods of the 3072-byte / 5552-byte block structures, one placement and data set) and the large all-FF lengths, each compared "
                "with a bit-serial reference anchored to 10 published check values. Every kernel call is made with poisoned caller-saved registers. "
                "Huge part: messages of 2^32 .. 2^32+16 MiB bytes (zeros plus one non-zero byte at the end / just beyond 4 GiB / near the start) on "
                "every vector kernel and the dispatched entries; expected values from the reference via a zero-run operator measured from the reference.",
@@ -86,7 +86,7 @@ reg("C03", harness="c03_ec", level="exploration", deadline=(240, 1500),
                "(a) every len minlen..320 (thorough ..1100) x 64 source offsets x 5 destination offsets + end-flush placement at k=3, (b) 38 "
                "source counts up to 255, (c) rows 1..13 for the high-level entries, (d) all 256 coefficients x all 256 byte values through the "
                "kernel's main loop and tail (source and destination pointer arrays write-protected during the call), (g) special coefficient matrices (all 0 / all 1 / identity pattern / all 2 / one value per row / only the last column) at k in {1,4,10}, "
-               "(e2) k = 32 / 40 with 1 MiB blocks for the high-level entries, (h) the high-level entries at the smallest shapes (k,rows) in {(1,1),(1,2),(2,1),(1,6)} x every length x 2 placements, (f) sparse sources: one source zero except a window of 1/8/24/32/64 bytes at every offset, the others zero or dense; "
+               "(e2) k = 32 / 40 with 1 MiB blocks and (e3) k = 171 / 200 / 255 x rows 4 / 7 / 10 x 8 KiB .. 32 KiB blocks for the high-level entries, (h) the high-level entries at the smallest shapes (k,rows) in {(1,1),(1,2),(2,1),(1,6)} x every length x 2 placements, (f) sparse sources: one source zero except a window of 1/8/24/32/64 bytes at every offset, the others zero or dense; "
                "outputs compared byte for byte with an independent GF(2^8) matrix product, sources read-only or "
                "compared, canaries and inaccessible pages around every buffer.",
     level_note="the full 5-way product is not claimed; the sub-products decide all data only under the no-data-dependent-branch assumption "
@@ -235,7 +235,7 @@ reg("C10", harness="c10_bound", level="model_checking", deadline=(720, 1800), ex
                "fixed tables and with a hostile custom table that expands the input). (ii-a) big-then-tiny histories on 150 000-byte inputs (log-like / mixed data): a call "
                "given 2000..100 000 bytes with 1..4000 bytes of output, then a call presenting 0/1/7/300 bytes with any flush kind, all named level buffers: exact "
                "bookkeeping and termination; avail_out of 2^31-1 .. 2^32-1 (zero-page-backed mapping) for both compression and both decompression entry points must give the same "
-               "bytes and exact counters as a small ample buffer. (ii-b) the state graph with the input arriving in "
+               "bytes and exact counters as a small ample buffer; isal_deflate_stateless on runs of 1 MiB .. 1 GiB (thorough 4 GiB - 1) equal 00 / ff bytes x 11 output sizes in exact-size guarded mappings (COMP_OK only with a stream that fits and decodes, else STATELESS_OVERFLOW). (ii-b) the state graph with the input arriving in "
                "several pieces ({0,1,8,rest} x output {0,1,2,5,10,rest} x flush kinds x late end_of_stream): no call writes beyond avail_out "
                "(guard pages) and counters equal bytes moved on every transition. (ii-c) multi-block streams with block-type transitions "
                "(KiBs of text + incompressible + text, minimum level buffer): EVERY first-output-buffer size up to the stream size and every uniform "
@@ -378,12 +378,12 @@ reg("C05", harness="c05_memory", level="fault_enumeration", deadline=(1500, 3000
                "output buffer swept byte by byte around every block boundary p (p+d and p-65824+d: where a stored block is cut by the end of the "
                "output buffer), all objects exact-size; the same harness on the portable-C build under ASan/UBSan and on the NDEBUG "
                "build; and the complete kernel sweeps (CRC, erasure code, update, RAID, zero detect: every length x end-flush and start-flush "
-               "placements x every ISA variant) re-run under this property.",
+               "placements x every ISA variant) re-run under this property; the gzip header writer with name / comment / extra in exact-size mappings ending at an inaccessible page, terminated and unterminated (C19 writer part).",
     level_note="abi probe (props/c05_abi.c): every EC / RAID / constant-multiply entry point once with clean registers and once with bits 63..32 of all int arguments set (84 assembly entry points fail: known finding, listed one by one); the >4 GiB big-stream part of C11 (stream object front-guarded, noise around offset 2^32) is run under this property as well; an out-of-range access that lands inside another live buffer of the same call needs an offset beyond the 1 MiB guard bands; "
                "intra-struct overflows are visible only in the ASan flavour (portable C code, not the assembly kernels).",
     runs=[dict(flavour="sim", part="exact"), dict(flavour="sim", part="revoke"), dict(flavour="sim", part="bigchunks"), dict(flavour="sim", part="bigout"), dict(flavour="rel", part="exact,revoke"), dict(flavour="noarch", part="exact,revoke,bigchunks"),
           dict(flavour="sim", harness="c20_zero"), dict(flavour="sim", harness="c04_crc"), dict(flavour="sim", harness="c03_ec"),
           dict(flavour="sim", harness="c13_update"), dict(flavour="sim", harness="c08_raid"), dict(flavour="sim", harness="c11_checksum", part="isize"),
-          dict(flavour="sim", harness="c05_abi", part="abi", shards=1)],
+          dict(flavour="sim", harness="c05_abi", part="abi", shards=1), dict(flavour="sim", harness="c19_headers", part="writer")],
     rule="case = (entry point, variant / CPU level, input or length, placement); a fault, canary damage or sanitizer report is a violation; "
          "distinct_nontrivial = distinct produced streams, chunk schedules and (implementation, length) sweep points completed.")
